@@ -2,7 +2,6 @@ import JadeModel.Proofs.SystemStatusFlow2a
 import JadeModel.Proofs.SystemStatusFlow2b
 import JadeModel.Proofs.SystemStatusFlow2c
 import JadeModel.Proofs.SystemStatusFlow2d
-import JadeModel.Proofs.SystemStatusFlow2e
 
 set_option linter.unusedSimpArgs false
 
@@ -16,10 +15,9 @@ theorem flowA_fresh_step {s s' : Sys} {op : Op} (hn : NodeInv s) (hl : LocInv s)
     (∀ q a y, s'.procs q = .sub a y → y.toCancel.Nodup) ∧
     (∀ b ∈ s'.batches, ∀ h, b.hid = some h → s'.slurm h = some .pending → ∀ j ∈ b.jobs, ¬ HasRow s' j) := by
   have c0 := flowA_fresh_step_1 hn hl ha hb hop h
-  have c1 := flowA_fresh_step_2 hn hl ha hb hop h
+  obtain ⟨c1, c4⟩ := flowA_fresh_step_2 hn hl ha hb hop h
   have c2 := flowA_fresh_step_3 hn hl ha hb hop h
   have c3 := flowA_fresh_step_4 hn hl ha hb hop h
-  have c4 := flowA_fresh_step_5 hn hl ha hb hop h
   exact ⟨c0, c1, c2, c3, c4⟩
 
 end Jade.Sys
